@@ -309,6 +309,17 @@ def text_case(run, index: int, engine: str = 'text', opts: Optional[Dict[str, An
     label = bool(index & 2)
     as_bytes = bool(index & 4)
     fgd = G.gen_text_fgd(rng, custom, index, opts)
+    if not label:
+        # without the generated "[N]" labels nothing is stripped from a flag's display name, so (unlike in the labelled
+        # form, where the generator has to avoid it) a name may begin with blanks - indented sub-options do
+        from srctools.fgd import ValueTypes as _VT
+        for ent in fgd.entities.values():
+            for variants in ent.keyvalues.values():
+                for kv in variants.values():
+                    if kv.type is _VT.SPAWNFLAGS and kv.val_list:
+                        kv.val_list = [(val, ('  ' + name) if (val.bit_length() % 2 and name) else name, default, tags)
+                                       for val, name, default, tags in kv.val_list]
+                        run.count('spawnflag_names_with_leading_blanks')
     case = {'engine': engine, 'index': index, 'custom_syntax': custom, 'label_spawnflags': label,
             'as_bytes': as_bytes, 'opts': opts or {}}
     snaps = G.snap_fgd(fgd)
@@ -731,7 +742,7 @@ def main(run, shard=(0, 1)) -> None:
         if cnt:
             run.count('reach:' + label_, cnt)
     run.require(*['reach:' + label_ for label_ in probe.counts])
-    run.require('exports', 'parses', 'file_form_exports', 'fgd_level_sections_compared', 'entities_compared', 'second_exports', 'serialise_calls', 'unserialise_calls',
+    run.require('spawnflag_names_with_leading_blanks', 'exports', 'parses', 'file_form_exports', 'fgd_level_sections_compared', 'entities_compared', 'second_exports', 'serialise_calls', 'unserialise_calls',
                 'lazy_queries', 'dbase_roundtrips', 'binary_dbase_roundtrips', 'long_strings', 'empty_display_names',
                 'tagged_duplicate_keys', 'aliases', 'texts_with_plus_split', 'binary_entities_compared')
 
